@@ -18,6 +18,7 @@ type Profile struct {
 	QKinds  []int
 	NQ      [2]int
 	WrapPct int
+	ReenterTune bool // re-entrant worker functions may also call TunePool
 	ReenterPct int // percent of the single submissions whose worker function calls back into the library (introspection, or a follow-up Add)
 	BoundPct   int // percent of the wrapped in-memory queues that are bounded (capacity 1-3, Enqueue waits while full)
 	AckCapPct  int // percent of the wrapped standard queues that also implement IAcknowledgeable
@@ -269,7 +270,9 @@ func generate(r *simrt.Rand, pf *Profile) (Cfg, *Program) {
 			if p.Subs[i].Batch >= 0 || p.Subs[i].Pre || !r.Chance(pf.ReenterPct) {
 				continue
 			}
-			if bounded || r.Chance(50) {
+			if pf.ReenterTune && r.Chance(50) {
+				p.Subs[i].Reenter = 3
+			} else if bounded || r.Chance(50) {
 				p.Subs[i].Reenter = 1
 			} else {
 				c := newSub(p.Subs[i].Q, -1)
